@@ -2316,6 +2316,34 @@ def enum_bodies(tier: str):
                        'sv': 6, 'batches': [first, [dict(base, **var)]]}
 
 
+def enum_errors(tier: str):
+    """The error table is finite: every errno the server maps (and some it
+    does not) and every status code an SFTPServer may raise, through every
+    operation that takes a path, in every negotiated version"""
+
+    attrs = {'permissions': 0o644}
+    paths = ['/@e/' + e for e in ERRNOS] + \
+        ['/@s/%d' % c for c in range(2, 32)]
+
+    for v in (3, 4, 5, 6):
+        for op in sorted(INJECTABLE):
+            reqs = []
+
+            for i, path in enumerate(paths):
+                reqs.append({
+                    'op': op, 'id': 100 + i, 'p': path, 'var': 'valid',
+                    'h': ['live', 0], 'h2': ['live', 0], 'off': 0, 'off2': 0,
+                    'len': 10, 'a': attrs, 'data': b'w', 'flags': 0,
+                    'badflags': False, 'check': 1, 'compose': [], 'w1': 0,
+                    'w2': 1})
+
+            # one at a time, and all of them pipelined
+            yield {'attrs': [], 'chunks': [], 'frag': [], 'cv': v, 'sv': 6,
+                   'batches': [[r] for r in reqs]}
+            yield {'attrs': [], 'chunks': [], 'frag': [], 'cv': v, 'sv': 6,
+                   'batches': [reqs]}
+
+
 FAMILIES = [
     Family('server', run_server, strategy=server_strategy,
            budget={'quick': 1280, 'thorough': 20000},
@@ -2333,6 +2361,10 @@ FAMILIES = [
            required={'all': ['v3', 'v4', 'v5', 'v6', 'var:trunc',
                              'var:trail', 'trail:v<6'] +
                      ['op:' + op for op in OPS]}),
+    Family('errors', run_server, enumerate=enum_errors,
+           required={'all': ['v3', 'v4', 'v5', 'v6', 'inject:errno',
+                             'inject:sftp'] +
+                     ['op:' + op for op in sorted(INJECTABLE)]}),
     Family('client', run_client, strategy=client_strategy,
            budget={'quick': 1280, 'thorough': 20000},
            required={'all': ['v3', 'v4', 'v5', 'v6', 'k>=2', 'k>=5',
